@@ -116,13 +116,18 @@ def strip_comments(src):
 
 
 def lean_sources():
-    res = []
-    for root, dirs, files in os.walk(LEAN):
-        dirs[:] = [d for d in dirs if d != '.lake']
-        for f in files:
-            if f.endswith('.lean'):
-                res.append(os.path.join(root, f))
-    return sorted(res)
+    """the Lean files that are part of the library: everything reachable through imports from
+    PyCraft/All.lean and Driver.lean (a file that nothing imports cannot influence any theorem)"""
+    seen, todo = set(), [os.path.join(LEAN, 'PyCraft', 'All.lean'), os.path.join(LEAN, 'Driver.lean'),
+                         os.path.join(LEAN, 'PyCraft.lean')]
+    while todo:
+        p = todo.pop()
+        if p in seen or not os.path.exists(p):
+            continue
+        seen.add(p)
+        for m in re.finditer(r'^import\s+(PyCraft(?:\.[A-Za-z0-9_]+)*)', open(p).read(), re.M):
+            todo.append(os.path.join(LEAN, *m.group(1).split('.')) + '.lean')
+    return sorted(seen)
 
 
 def grep_forbidden():
